@@ -7,7 +7,47 @@ use crate::treespec::*;
 use serde_json::json;
 use std::collections::{BTreeMap, BTreeSet};
 
+/// Directed, real code + oracle: an unchanged tree containing a path of MORE THAN 1024 BYTES (five nested
+/// directories with 230-byte names — every component legal) and files sharing a combined block, backed up
+/// three times with the default options: the second and third backups store nothing again and record the
+/// same addresses.
+fn long_path_unchanged(report: &mut Report) {
+    use crate::icept::IceptConfig;
+    use crate::real::*;
+    let work = tempfile::tempdir().unwrap();
+    let (src, arch) = (work.path().join("src"), work.path().join("arch"));
+    std::fs::create_dir(&src).unwrap();
+    std::fs::write(src.join("one"), b"first small file").unwrap();
+    std::fs::write(src.join("two"), b"second small file").unwrap();
+    let mut deep = src.clone();
+    for c in ["a", "b", "c", "d", "e"] {
+        deep = deep.join(c.repeat(230));
+    }
+    std::fs::create_dir_all(&deep).unwrap();
+    std::fs::write(deep.join("leaf"), b"deep small file").unwrap();
+    create_archive(&arch);
+    let p = BackupParams { max_entries_per_hunk: 100_000, max_block_size: 20 << 20, small_file_cap: 1 << 20, owner: true, exclude: vec![] };
+    report.case("long-path-unchanged", true);
+    report.hit("directed:long-path(>1024 bytes)");
+    let blocks = |a: &std::path::Path| -> BTreeSet<String> { let mut s = BTreeSet::new(); if let Ok(rd) = std::fs::read_dir(a.join("d")) { for sub in rd.flatten() { for f in std::fs::read_dir(sub.path()).unwrap().flatten() { s.insert(f.file_name().to_string_lossy().to_string()); } } } s };
+    let b0 = real_backup(&arch, &src, &p, IceptConfig::default());
+    if !b0.result.starts_with("result ok") {
+        report.oracle_fail("dedup:long-path-backup-failed", json!({"directed": "long-path"}), "a backup of a tree with a 1.2 KiB path failed", json!(crate::compare::trunc(&b0.result)));
+        return;
+    }
+    let blocks0 = blocks(&arch);
+    for round in 1..=2 {
+        let r = real_backup(&arch, &src, &p, IceptConfig::default());
+        let unmodified = r.result.split(' ').find_map(|t| t.strip_prefix("unmodified_files=")).and_then(|v| v.parse::<u64>().ok());
+        let case = json!({"directed": "long-path", "backup_number": round + 1});
+        if unmodified != Some(3) || blocks(&arch) != blocks0 || r.events.iter().any(|e| e.starts_with("event error")) {
+            report.oracle_fail("dedup:unchanged-file-not-reused", case, "backing up an unchanged tree (with a path longer than 1024 bytes) read files again, wrote a block, or reported an error", json!({"result": crate::compare::trunc(&r.result), "events": r.events.iter().take(2).collect::<Vec<_>>(), "blocks_before": blocks0.len(), "blocks_after": blocks(&arch).len()}));
+        }
+    }
+}
+
 pub fn run(tier: &str, seed: u64, report: &mut Report) {
+    long_path_unchanged(report);
     let thorough = tier == "thorough";
     let n_hist = if thorough { 300 } else { 30 };
     for h in 0..n_hist {
